@@ -6,7 +6,7 @@
     x |-> Derivative(x,1). *)
 From Coq Require Import Reals ZArith List.
 From Coquelicot Require Import Coquelicot.
-From LP Require Import Num NumR C01_Model C01_Proofs C01_Proofs_Table.
+From LP Require Import Num NumR C01_Model C01_Proofs C01_Proofs_Table C01_Proofs_Global C01_Proofs_Accept.
 Import ListNotations.
 Local Open Scope R_scope.
 
@@ -195,3 +195,183 @@ Theorem C01_table_constructor_is_grid_constructor xs ys f xd yd fd : valid_grid 
   construct2_table ROps (table_of_grid xs ys f) xd yd fd = construct2 ROps xs ys f xd yd fd.
 Proof. exact (table_constructor_grid xs ys f xd yd fd). Qed.
 Print Assumptions C01_table_constructor_is_grid_constructor.
+
+(** ------------------------------------------------------------------------------------------------------------------
+    Statements over whole tables, every admissible query point, and every accepted constructor input.
+    [tolL xs] = 1/100 (x_1 - x_0), [tolR xs] = 1/100 (x_{N-1} - x_{N-2}): the widths of the extrapolation zone. *)
+
+(** "between two adjacent abscissae, is monotone ... so it introduces no extremum that is not in the data", over a whole run of
+    knots a..b on which the data are monotone (induction over the segments; a = b and points in different segments included):
+    the returned curve is monotone on [x_a, x_b].  Non-vacuity: [run_example]. *)
+Theorem C01_monotone_on_run xs ys : valid_table xs ys -> forall a b, (a <= b)%nat -> (b < length xs)%nat ->
+  forall p q, nth a xs 0 <= p -> p <= q -> q <= nth b xs 0 ->
+  exists fp fq, interpolate ROps (tab xs ys) p = Ok fp /\ interpolate ROps (tab xs ys) q = Ok fq /\
+    ((forall i, (a <= i < b)%nat -> nth i ys 0 <= nth (S i) ys 0) -> fp <= fq) /\
+    ((forall i, (a <= i < b)%nat -> nth (S i) ys 0 <= nth i ys 0) -> fq <= fp).
+Proof. exact (monotone_on_run xs ys). Qed.
+Print Assumptions C01_monotone_on_run.
+
+(** ... no strict local maximum or minimum of the returned curve lies strictly between two adjacent abscissae *)
+Theorem C01_no_interior_strict_extremum xs ys : valid_table xs ys -> forall j x, (S j < length xs)%nat ->
+  nth j xs 0 < x < nth (S j) xs 0 ->
+  ~ strict_local_max (curve xs ys) x /\ ~ strict_local_min (curve xs ys) x.
+Proof. exact (no_interior_strict_extremum xs ys). Qed.
+Print Assumptions C01_no_interior_strict_extremum.
+
+(** "never overshoot", whole table: every value returned on the domain lies between two tabulated values, hence inside any
+    bounds of the data *)
+Theorem C01_global_range xs ys : valid_table xs ys -> forall x, nth 0 xs 0 <= x <= nth (length xs - 1) xs 0 ->
+  exists v, interpolate ROps (tab xs ys) x = Ok v /\
+    (forall lo hi, (forall i, (i < length xs)%nat -> lo <= nth i ys 0 <= hi) -> lo <= v <= hi) /\
+    exists i k, (i < length xs)%nat /\ (k < length xs)%nat /\ nth i ys 0 <= v <= nth k ys 0.
+Proof. exact (global_range xs ys). Qed.
+Print Assumptions C01_global_range.
+
+(** "all query points: ... the 1 % extrapolation zone at both ends": Locate is total -- it answers exactly on the open interval
+    (x_0 - tolL, x_{N-1} + tolR), always with a segment of the table (0 left of the table, N-2 right of it, a segment
+    containing x inside), and terminates the process everywhere else.  Non-vacuity: [zone_example]. *)
+Theorem C01_locate_total xs ys : valid_table xs ys -> forall x,
+  let N := length xs in
+  (nth 0 xs 0 - tolL xs < x < nth (N - 1) xs 0 + tolR xs ->
+     exists j, locate ROps (tab xs ys) x = Ok j /\ (S j < N)%nat /\
+       (x < nth 0 xs 0 -> j = 0%nat) /\ (nth (N - 1) xs 0 < x -> j = (N - 2)%nat) /\
+       (nth 0 xs 0 <= x <= nth (N - 1) xs 0 -> nth j xs 0 <= x <= nth (S j) xs 0)) /\
+  (~ (nth 0 xs 0 - tolL xs < x < nth (N - 1) xs 0 + tolR xs) -> locate ROps (tab xs ys) x = Exit).
+Proof. exact (locate_total xs ys). Qed.
+Print Assumptions C01_locate_total.
+
+(** "Value and first derivative are continuous across abscissae", at EVERY point where the library answers -- the two end knots
+    x_0, x_{N-1} and the extrapolation zone included (C01_curve_differentiable covers the open domain only) *)
+Theorem C01_curve_differentiable_everywhere xs ys : valid_table xs ys -> forall x,
+  nth 0 xs 0 - tolL xs < x < nth (length xs - 1) xs 0 + tolR xs ->
+  (exists d, derivative ROps (tab xs ys) x 1 = Ok d /\ is_derive (curve xs ys) x d) /\ continuity_pt (curve xs ys) x.
+Proof. exact (fun HV x Hx => conj (curve_differentiable_everywhere xs ys HV x Hx) (curve_continuous_everywhere xs ys HV x Hx)). Qed.
+Print Assumptions C01_curve_differentiable_everywhere.
+
+(** "the reported derivatives of order 1-3 are the derivatives of the returned curve", at the end knots and in the zone: there the
+    curve is one polynomial on a neighbourhood, so Derivative(x,k) is the k-th derivative of the curve for every k >= 1 *)
+Theorem C01_derivatives_at_ends xs ys : valid_table xs ys -> forall x k,
+  (nth 0 xs 0 - tolL xs < x < nth 1 xs 0 \/ nth (length xs - 2) xs 0 < x < nth (length xs - 1) xs 0 + tolR xs) ->
+  exists v, derivative ROps (tab xs ys) x (Z.of_nat (S k)) = Ok v /\ is_derive_n (curve xs ys) (S k) x v.
+Proof. exact (derivatives_at_ends xs ys). Qed.
+Print Assumptions C01_derivatives_at_ends.
+
+(** Derivative(x, 0) is Interpolate(x) -- for every object, argument and arithmetic (any NumOps instance, the doubles included) *)
+Theorem C01_derivative_order_0 : forall (T : Type) (Ops : NumOps T) (ob : itab) (x : T),
+  derivative Ops ob x 0 = interpolate Ops ob x.
+Proof. exact (@derivative_order_0). Qed.
+Print Assumptions C01_derivative_order_0.
+
+(** "straight-line data ... are reproduced exactly", at every query point: value, slope, and vanishing second and third
+    derivative wherever the library answers; Exit elsewhere.  Non-vacuity: [line_example]. *)
+Theorem C01_linear_exact_everywhere xs ys : valid_table xs ys -> forall m q,
+  (forall i, (i < length xs)%nat -> nth i ys 0 = m * nth i xs 0 + q) -> forall x,
+  (nth 0 xs 0 - tolL xs < x < nth (length xs - 1) xs 0 + tolR xs ->
+     interpolate ROps (tab xs ys) x = Ok (m * x + q) /\ derivative ROps (tab xs ys) x 1 = Ok m /\
+     derivative ROps (tab xs ys) x 2 = Ok 0 /\ derivative ROps (tab xs ys) x 3 = Ok 0) /\
+  (~ (nth 0 xs 0 - tolL xs < x < nth (length xs - 1) xs 0 + tolR xs) -> interpolate ROps (tab xs ys) x = Exit).
+Proof. exact (linear_exact_everywhere xs ys). Qed.
+Print Assumptions C01_linear_exact_everywhere.
+
+(** "(and parabola data where the slope limiter is inactive)", at every query point, with all three derivatives.
+    Non-vacuity: [parabola_example]. *)
+Theorem C01_parabola_exact_everywhere xs ys : valid_table xs ys -> forall al be ga,
+  (forall i, (i < length xs)%nat -> nth i ys 0 = al * nth i xs 0 ^ 2 + be * nth i xs 0 + ga) ->
+  (forall i, (i < length xs)%nat -> DYf xs ys i = Pf xs ys i) ->
+  forall x, nth 0 xs 0 - tolL xs < x < nth (length xs - 1) xs 0 + tolR xs ->
+  interpolate ROps (tab xs ys) x = Ok (al * x ^ 2 + be * x + ga) /\ derivative ROps (tab xs ys) x 1 = Ok (2 * al * x + be) /\
+  derivative ROps (tab xs ys) x 2 = Ok (2 * al) /\ derivative ROps (tab xs ys) x 3 = Ok 0.
+Proof. exact (parabola_exact_everywhere xs ys). Qed.
+Print Assumptions C01_parabola_exact_everywhere.
+
+(** The 1D constructors' guards, completely, in the order of the repaired code (/repo 94355d7, finding F45): the two length checks,
+    the unit conversion of both tables, and only then the strict-increase loop -- on the CONVERTED abscissae.
+    [ctor_guard Ops xs ys xd] = equal lengths, N >= 2, and [strictly_increasing Ops (scale Ops xd xs) = true];
+    [stored_increasing Ops l] = no step of l compares x[i+1] <= x[i].
+
+    For EVERY arithmetic (any NumOps instance, the doubles included, no premise on the multiplication):
+    Interpolation(xs, ys, x_dim, f_dim) returns an object exactly when the guard holds on the converted abscissae and terminates the
+    process exactly when it does not; the object is the one built from the two converted tables, and the table it stores has N >= 2
+    points, as many ordinates, and is strictly increasing -- a conversion that rounds two abscissae onto one double (or onto inf, inf)
+    cannot leave a repeated abscissa in an object.  When x_dim is not > 0 there is no conversion and the guard is on the abscissae as
+    given.  Non-vacuity: [ctor_guard_examples]; [rounding_multiplication_example] is an arithmetic with a rounding multiplication in
+    which abscissae that are strictly increasing as given are rejected because their conversion collapses. *)
+Theorem C01_constructor_tests_converted_abscissae : forall (T : Type) (Ops : NumOps T) (xs ys : list T) (xd fd : T),
+  ((exists o, construct Ops xs ys xd fd = Ok o) <-> ctor_guard Ops xs ys xd) /\
+  (construct Ops xs ys xd fd = Exit <-> ~ ctor_guard Ops xs ys xd) /\
+  (forall o, construct Ops xs ys xd fd = Ok o ->
+     o = build Ops (scale Ops xd xs) (scale Ops fd ys) /\
+     iN o = length xs /\ length (ixs o) = iN o /\ length (iys o) = iN o /\ (2 <= iN o)%nat /\
+     stored_increasing Ops (ixs o)).
+Proof. exact (@construct_any_iff). Qed.
+Print Assumptions C01_constructor_tests_converted_abscissae.
+
+Theorem C01_no_conversion_without_positive_unit : forall (T : Type) (Ops : NumOps T) (d : T) (l : list T),
+  ngtb Ops d (n0 Ops) = false -> scale Ops d l = l.
+Proof. exact (@scale_off). Qed.
+Print Assumptions C01_no_conversion_without_positive_unit.
+
+(** Over the reals the conversion neither merges nor separates abscissae, so the guard on the converted abscissae is the guard on the
+    given ones: [acceptable_table xs ys] = equal lengths, N >= 2, strictly increasing abscissae (for any x_dim); and the stored-table
+    predicate is strict increase. *)
+Theorem C01_constructor_guard_over_reals xs ys xd :
+  (ctor_guard ROps xs ys xd <-> acceptable_table xs ys) /\
+  (forall l, stored_increasing ROps l <-> increasing l).
+Proof. exact (conj (ctor_guard_R xs ys xd) stored_increasing_R). Qed.
+Print Assumptions C01_constructor_guard_over_reals.
+
+(** Hence, over the reals: Interpolation(xs, ys, x_dim, f_dim) builds the object exactly for the acceptable tables (the converted
+    table is again acceptable), terminates the process for every other input, and whatever it returns comes from an acceptable table.
+    The row constructor Interpolation(data, x_dim, f_dim) is, for rows of length 2 and in every arithmetic, the list constructor
+    applied to the two columns (so every theorem applies), and a row of any other length terminates the process.
+    Non-vacuity of all sides: [acceptable_examples], [construct_rows_example]. *)
+Theorem C01_constructors_complete :
+  (forall xs ys xd fd,
+     (acceptable_table xs ys ->
+        construct ROps xs ys xd fd = Ok (tab (scale ROps xd xs) (scale ROps fd ys)) /\
+        acceptable_table (scale ROps xd xs) (scale ROps fd ys)) /\
+     (~ acceptable_table xs ys -> construct ROps xs ys xd fd = Exit) /\
+     (forall o, construct ROps xs ys xd fd = Ok o ->
+        acceptable_table xs ys /\ o = tab (scale ROps xd xs) (scale ROps fd ys))) /\
+  (forall (data : list (list R)) xd fd,
+     ((forall r, In r data -> length r = 2%nat) ->
+        construct_rows ROps data xd fd
+        = construct ROps (map (fun r => nth 0 r 0) data) (map (fun r => nth 1 r 0) data) xd fd) /\
+     ((exists r, In r data /\ length r <> 2%nat) -> construct_rows ROps data xd fd = Exit)).
+Proof. exact (conj construct_complete_inv construct_rows_complete). Qed.
+Print Assumptions C01_constructors_complete.
+
+(** Two-point tables (accepted by the constructor; the property's quantifier starts at three points): the chord and its slope *)
+Theorem C01_two_point_chord x0 x1 y0 y1 : x0 < x1 -> forall x, x0 <= x <= x1 ->
+  interpolate ROps (tab [x0; x1] [y0; y1]) x = Ok (y0 + (y1 - y0) / (x1 - x0) * (x - x0)) /\
+  derivative ROps (tab [x0; x1] [y0; y1]) x 1 = Ok ((y1 - y0) / (x1 - x0)).
+Proof. exact (two_point_chord x0 x1 y0 y1). Qed.
+Print Assumptions C01_two_point_chord.
+
+(** 2D, whole grid: Interpolate(x, y) answers at every point of the domain rectangle with the bilinear form of a cell containing
+    the point, and never leaves the range of the tabulated values *)
+Theorem C01_bilinear_global_range xs ys f : valid_grid xs ys f -> forall x y,
+  nth 0 xs 0 <= x <= nth (length xs - 1) xs 0 -> nth 0 ys 0 <= y <= nth (length ys - 1) ys 0 ->
+  exists i j, (S i < length xs)%nat /\ (S j < length ys)%nat /\
+    nth i xs 0 <= x <= nth (S i) xs 0 /\ nth j ys 0 <= y <= nth (S j) ys 0 /\
+    interpolate2 ROps (grid xs ys f) x y = Ok (BIL xs ys f i j x y) /\
+    forall lo hi, (forall a b, (a < length xs)%nat -> (b < length ys)%nat -> lo <= nth b (nth a f []) 0 <= hi) ->
+      lo <= BIL xs ys f i j x y <= hi.
+Proof. exact (bilinear_global_range xs ys f). Qed.
+Print Assumptions C01_bilinear_global_range.
+
+(** 2D constructors, every ACCEPTED input.  Whatever the grid constructor accepts is a valid grid (after the unit factors); and
+    whatever table (rows x, y, f) the data-table constructor accepts -- not only the tables of valid grids -- yields a valid grid with
+    N_x N_y = number of rows that returns every row's f at that row's (x, y) ([sc d v] = v d if d > 0, else v: the unit factors).
+    So all 2D theorems apply to every object these constructors can build.  Non-vacuity: [table_accept_example]. *)
+Theorem C01_constructors2_sound :
+  (forall xs ys f xd yd fd o, construct2 ROps xs ys f xd yd fd = Ok o ->
+     valid_grid (scale ROps xd xs) (scale ROps yd ys) (scale2 ROps fd f) /\
+     o = grid (scale ROps xd xs) (scale ROps yd ys) (scale2 ROps fd f)) /\
+  (forall (data : list (list R)) xd yd fd o, construct2_table ROps data xd yd fd = Ok o ->
+     exists gx gy gf, valid_grid gx gy gf /\ o = grid gx gy gf /\ (length gx * length gy = length data)%nat /\
+       forall k, (k < length data)%nat -> exists x y f, nth k data [] = [x; y; f] /\
+         sc xd x = nth (k / length gy) gx 0 /\ sc yd y = nth (k mod length gy) gy 0 /\
+         interpolate2 ROps o (sc xd x) (sc yd y) = Ok (sc fd f)).
+Proof. exact (conj construct2_inv table_constructor_sound). Qed.
+Print Assumptions C01_constructors2_sound.
